@@ -341,7 +341,17 @@ class C11(Prop):
         ob["contr"] = {}
         for tag in ("nt", "tr"):
             if tag == "nt":
-                par = ts.SVDParameters(max_bond_dim=float("inf"), rel_tol=float("-inf"), total_tol=float("-inf"))
+                # every other case reuses ONE parameter object with a finite integer bound for a small splitting first
+                # (as TEBD/TDVP and the default arguments do): a splitting that rewrites its parameters shows up
+                if sum(case["shape"]) % 2:
+                    par = ts.SVDParameters(max_bond_dim=float("inf"), rel_tol=float("-inf"), total_tol=float("-inf"))
+                else:
+                    par = ts.SVDParameters(max_bond_dim=10 ** 6, rel_tol=float("-inf"), total_tol=float("-inf"))
+                    try:
+                        ts.truncated_tensor_svd(np.eye(2), (0, ), (1, ), par)
+                        ts.contr_truncated_svd_splitting(np.ones((1, 1)), (0, ), (1, ), svd_params=par)
+                    except Exception:  # noqa
+                        pass
             else:
                 par = ts.SVDParameters(**case["trunc"])
             try:
